@@ -7,7 +7,8 @@
 (* after all of them have finished.                                        *)
 (*                                                                         *)
 (* A rule body is a sequence of blocks; block b is a sequence of children  *)
-(* [id, kind \in {"asgL","asgI","func","meth","three"}, fails, val].  The   *)
+(* [id, kind \in {"asgL","asgI","func","meth","three","methL","asgML"},     *)
+(* fails, val] (methL / asgML: a method of an object held in a rule local). The *)
 (* statement after block b is the observer `after(b)` followed by one       *)
 (* `see(c, value)` per assignment child c of the blocks passed so far.     *)
 (***************************************************************************)
@@ -58,7 +59,7 @@ CAfterCore(b) ==
 CSeeCore(c, v) ==
   /\ cphase = "run" /\ c \in DOMAIN cst
   /\ BlockOf(c) < bi
-  /\ Child(c).kind \in {"asgL", "asgI"}
+  /\ Child(c).kind \in {"asgL", "asgI", "asgML"}
   /\ v = Child(c).val
   /\ UNCHANGED <<blocks, bi, cst, cphase>>
 
